@@ -113,7 +113,7 @@ func init() {
 		Prepare:  func(e *Engine) { e.assumeKindInv = true },
 		Opts: func(e *Engine, key string) VerifyOpts {
 			// panic-freedom of the same functions is C04's claim (type assertions on constant values etc.)
-			return VerifyOpts{OnlyKinds: []string{"pre", "post", "frame", "inv-init", "inv-pres", "cover", "call"}}
+			return VerifyOpts{OnlyKinds: []string{"pre", "post", "frame", "inv-init", "inv-pres", "cover", "call"}, PathCovers: true}
 		},
 		Extra: func(e *Engine, tier string) []*FuncResult { return []*FuncResult{e.yamlCarriedResult(map[string]bool{"AsCompilerPass": true}, "c15")} },
 		Assumptions: []string{
@@ -132,7 +132,7 @@ func init() {
 		Prepare:  func(e *Engine) { e.assumeKindInv = true },
 		Funcs:    func(e *Engine) []string { return []string{"tools.StringInListEqualFold"} },
 		Opts: func(e *Engine, key string) VerifyOpts {
-			return VerifyOpts{OnlyKinds: []string{"pre", "post", "frame", "inv-init", "inv-pres", "cover", "call"}}
+			return VerifyOpts{OnlyKinds: []string{"pre", "post", "frame", "inv-init", "inv-pres", "cover", "call"}, PathCovers: true}
 		},
 		Extra: func(e *Engine, tier string) []*FuncResult {
 			return []*FuncResult{e.mergeFlowResult(), e.siblingCopyResult(), e.yamlCarriedResult(map[string]bool{"AsRewriteRule": true, "AsSelector": true}, "c17")}
@@ -153,7 +153,7 @@ func init() {
 		Level:    "proof",
 		Prepare:  func(e *Engine) { e.assumeKindInv = true },
 		Opts: func(e *Engine, key string) VerifyOpts {
-			return VerifyOpts{OnlyKinds: []string{"pre", "post", "frame", "inv-init", "inv-pres", "cover", "call"}}
+			return VerifyOpts{OnlyKinds: []string{"pre", "post", "frame", "inv-init", "inv-pres", "cover", "call"}, PathCovers: true}
 		},
 		Extra: func(e *Engine, tier string) []*FuncResult { return []*FuncResult{e.flowResult()} },
 		Assumptions: []string{
@@ -169,7 +169,7 @@ func init() {
 		Level:    "proof",
 		Prepare:  func(e *Engine) { e.assumeKindInv = true },
 		Opts: func(e *Engine, key string) VerifyOpts {
-			return VerifyOpts{OnlyKinds: []string{"pre", "post", "frame", "inv-init", "inv-pres", "cover", "call"}}
+			return VerifyOpts{OnlyKinds: []string{"pre", "post", "frame", "inv-init", "inv-pres", "cover", "call"}, PathCovers: true}
 		},
 		Extra: func(e *Engine, tier string) []*FuncResult { return []*FuncResult{e.refKindsResult()} },
 		Assumptions: []string{
@@ -188,9 +188,9 @@ func init() {
 			if key == "compiler.(*DisjunctionToType).processDisjunction" {
 				// only its postcondition is claimed: the preconditions of the visitor's object registry and of
 				// Type.AsScalar at its call sites depend on state behind callbacks with unknown effects
-				return VerifyOpts{OnlyKinds: []string{"post", "cover", "call"}}
+				return VerifyOpts{OnlyKinds: []string{"post", "cover", "call"}, PathCovers: true}
 			}
-			return VerifyOpts{OnlyKinds: []string{"pre", "post", "frame", "inv-init", "inv-pres", "cover", "call"}}
+			return VerifyOpts{OnlyKinds: []string{"pre", "post", "frame", "inv-init", "inv-pres", "cover", "call"}, PathCovers: true}
 		},
 		Extra: func(e *Engine, tier string) []*FuncResult { return []*FuncResult{e.chainResult()} },
 		Assumptions: []string{
@@ -207,13 +207,13 @@ func init() {
 		Level:    "proof",
 		Prepare:  func(e *Engine) { e.assumeKindInv = true },
 		Opts: func(e *Engine, key string) VerifyOpts {
-			return VerifyOpts{OnlyKinds: []string{"pre", "post", "frame", "inv-init", "inv-pres", "cover", "call"}}
+			return VerifyOpts{OnlyKinds: []string{"pre", "post", "frame", "inv-init", "inv-pres", "cover", "call"}, PathCovers: true}
 		},
-		Extra: func(e *Engine, tier string) []*FuncResult { return []*FuncResult{e.unwrapFlowResult(), e.cueDefaultFlowResult()} },
+		Extra: func(e *Engine, tier string) []*FuncResult { return []*FuncResult{e.unwrapFlowResult(), e.cueDefaultFlowResult(), e.cueDefaultSinksResult()} },
 		Assumptions: []string{
 			"scope: the IR side of the property for the JSON Schema front end only - a default/constant/enum value decoded by the schema library (json.Number for numbers) enters the IR as the Go number it denotes: unwrapJSONNumber(s) under contract (never returns a json.Number, leaves other values alone) plus def-use obligations over go/ssa that every library value reaching ast.Default / ast.Value / Type.Default / ScalarType.Value / EnumValue.Value in a walker that can hold numbers passes through it (walkString and walkBool are exempt)",
 			"OpenAPI front end: functional contracts on the walkers (the default of a string / number / integer / boolean / array / enum schema and every enum member value enter the IR as the very value the library decoded)",
-			"CUE front end: the CUE library is opaque to the engine; only a structural obligation is claimed - in cueConcreteToScalar every list element / struct field the iterator yields is converted and recorded (no path back to the loop head skips the append / the map store)",
+			"CUE front end: the CUE library is opaque to the engine; only structural obligations are claimed - in cueConcreteToScalar every list element / struct field the iterator yields is converted and recorded (no path back to the loop head skips the append / the map store), and every default handed to the IR in package simplecue comes from extractDefault / cueConcreteToScalar through extracts and phis only (no function is applied to it on the way)",
 			"NOT covered (generated-program behaviour, outside this technique): what the Go and Python default constructors print, agreement between the two languages, the rest of the CUE front end, passes that move defaults",
 			"encoding/json.Number.Int64/Float64/String are assumed total functions returning values of the stated Go types",
 		},
@@ -229,6 +229,11 @@ func init() {
 			}
 			if key == "compiler.(*Visitor).VisitSchema" {
 				o.OnlyNames = []string{"call:"}
+			}
+			if key == "compiler.(*DisjunctionToType).processDisjunction" {
+				// only its postconditions are claimed (see C06)
+				o.OnlyKinds = []string{"post", "cover", "call"}
+				o.PathCovers = true
 			}
 			return o
 		}
